@@ -196,8 +196,15 @@ func genC20(seed, index uint64, maxSize int) History {
 	gis := make([]*gi, ninst)
 	for i := range gis {
 		size := int64(1 + r.Intn(maxSize))
-		if r.Chance(40) {
+		switch x := r.Intn(100); {
+		case x < 45:
 			size = int64(1 + r.Intn(8))
+		case x < 55:
+			// sizes around powers of two: where bitmaps, byte counters and masks go wrong
+			size = []int64{15, 16, 17, 31, 32, 33, 63, 64, 65, 127, 128, 129, 255, 256, 257}[r.Intn(15)]
+			if maxSize <= 8 && r.Chance(50) {
+				size = []int64{7, 8, 9, 15, 16, 17}[r.Intn(6)]
+			}
 		}
 		min := c20mins[r.Intn(len(c20mins))]
 		gis[i] = &gi{min: min, max: min + size - 1, size: size}
@@ -208,6 +215,14 @@ func genC20(seed, index uint64, maxSize int) History {
 		maxSteps += int(6 * g.size)
 	}
 	n := 1 + r.Intn(maxSteps)
+	if index%50 == 7 {
+		// churn class: thousands of operations on a small allocator (total-operation
+		// counters, many wraps of the scan offset)
+		n = 600 + r.Intn(4000)
+		if maxSteps > 400 {
+			n = maxSteps + r.Intn(2000)
+		}
+	}
 	phase := 0 // 0 mixed, 1 fill, 2 free
 	phaseLeft := 0
 	for len(h.Steps) < n {
@@ -531,7 +546,7 @@ loop:
 		Coverage: map[string]interface{}{
 			"evaluations":         histories,
 			"distinct_nontrivial": len(distinct),
-			"rule": fmt.Sprintf("one seeded history per index: 1-3 interleaved allocators with min in %v and 1..%d identifiers, up to 6*size steps of Allocate / Allocate_inRange / FreeID in fill, free and mixed phases, "+
+			"rule": fmt.Sprintf("one seeded history per index: 1-3 interleaved allocators with min in %v and 1..%d identifiers (10 %% of them with sizes next to powers of two up to 257), up to 6*size steps of Allocate / Allocate_inRange / FreeID in fill, free and mixed phases (every 50th history is a churn history of 600-4600 steps), "+
 				"then a drain phase (Allocate until failure); non-trivial = the history reaches exhaustion, re-allocates after a free, or allocates more than size identifiers in total (scan offset wraps); "+
 				"distinct = distinct FNV-64 hashes of (instances, steps) among those", c20mins, maxSize),
 			"samples":                  samples,
